@@ -23,7 +23,6 @@ import (
 	"fmt"
 	"hash/fnv"
 	"os"
-	"runtime/debug"
 	"runtime/pprof"
 	"sort"
 	"strings"
@@ -395,7 +394,11 @@ type f2Result struct {
 	programs        int64
 }
 
-func (d *driver) runFamily2(mode string, maxLen int, deadline time.Time, st *famStats) f2Result {
+// runFamily2 runs every token sequence of length 1..maxLen.  Programs of length
+// >= reduceFrom run only with the variants they can observe syntactically: the
+// three call data only when a call-data token occurs, both pre-states only when
+// a storage token (or SELFDESTRUCT) occurs; shorter programs run with all six.
+func (d *driver) runFamily2(mode string, maxLen, reduceFrom int, deadline time.Time, st *famStats) f2Result {
 	n := len(alphabet)
 	var res f2Result
 	for L := 1; L <= maxLen; L++ {
@@ -433,7 +436,7 @@ func (d *driver) runFamily2(mode string, maxLen int, deadline time.Time, st *fam
 					y /= int64(n)
 				}
 				code := family2Code(toks)
-				for v := 0; v < 6; v++ {
+				for _, v := range family2Variants(toks, L >= reduceFrom) {
 					k := family2Case(toks, code, v, mode)
 					r := runPair(k, nil)
 					loc.account(&r)
@@ -475,11 +478,6 @@ func determinismProbe(cases []*txCase) {
 func main() {
 	run := core.Start("C10", "exploration", "DIFFREF")
 	// every case allocates two EVMs (two 18 KB jump tables each) on a tiny live heap: collect less often
-	if v := os.Getenv("C10_GOGC"); v != "" {
-		var g int
-		fmt.Sscan(v, &g)
-		debug.SetGCPercent(g)
-	}
 	calibrate_IT()
 	calibrate_RF()
 	if revertErr_RF == nil {
@@ -530,7 +528,7 @@ func main() {
 	var f1items []f1Item
 	nonExhaustiveOps := []string{}
 	for c := 0; c < 256; c++ {
-		progs, exh := family1Programs(c, true)
+		progs, exh := family1Programs(c, thorough)
 		if c == opGAS {
 			continue
 		}
@@ -612,7 +610,8 @@ func main() {
 		fmt.Sscan(v, &maxLen)
 	}
 	st2 := newFamStats()
-	r2 := d.runFamily2("aligned", maxLen, deadline, st2)
+	reduceFrom := run.Pick(3, 4)
+	r2 := d.runFamily2("aligned", maxLen, reduceFrom, deadline, st2)
 	s2 := st2.summary()
 	s2["alphabet"] = len(alphabet)
 	s2["programs"] = r2.programs
@@ -631,7 +630,7 @@ func main() {
 	if appLen < 0 {
 		appLen = 0
 	}
-	r2b := d.runFamily2("app", appLen, deadline, st2b)
+	r2b := d.runFamily2("app", appLen, reduceFrom, deadline, st2b)
 	s2b := st2b.summary()
 	s2b["programs"] = r2b.programs
 	s2b["max_length_completed"] = r2b.maxLenCompleted
@@ -662,10 +661,10 @@ func main() {
 	cov["disagreeing_cases"] = total.Disagreements
 	cov["disagreement_classes"] = flist
 	cov["exhaustive"] = exhaustive
-	cov["exhaustive_note"] = "family 1: full operand product for arity <= 3, pairwise-covering orthogonal array (169 tuples) + all-equal tuples for arity 4..6 (opcodes listed in family1_opcode_x_operands); family 2: every token sequence up to max_length_completed; family 3: every listed combination"
-	cov["bounds"] = map[string]interface{}{"family2_max_len": maxLen, "family2_app_config_max_len": appLen, "family2_time_cap_s": 720,
+	cov["exhaustive_note"] = "family 1: full operand product for arity <= 3 (quick tier: <= 2), pairwise-covering orthogonal array (169 tuples) + all-equal tuples for arity 4..6 (opcodes listed in family1_opcode_x_operands); family 2: every token sequence up to max_length_completed; family 3: every listed combination"
+	cov["bounds"] = map[string]interface{}{"family2_max_len": maxLen, "family2_app_config_max_len": appLen, "family2_time_cap_s": 720, "family2_all_six_variants_below_length": reduceFrom,
 		"work_limit_gas_families_1_3": workLimitDefault, "work_limit_gas_family_2": workLimitShort, "ample_gas": ampleGas}
-	cov["rule"] = "a case = one transaction (pre-state, callee or creation, call data) executed on the in-tree EVM and on upstream go-ethereum v1.8.27 (Constantinople without Petersburg) in one binary; cases: (1) every opcode byte x boundary operand tuples, executed as the called contract, behind a CALL and behind a STATICCALL, (2) every sequence of <= max_length tokens of a 47-token alphabet between a prologue pushing two words and an epilogue returning memory[0:64], top of stack, MSIZE and keccak(memory), x 3 call data x 2 pre-states, (3) caller {CALL,CALLCODE,DELEGATECALL,STATICCALL,CREATE,CREATE2} x value {0,1} x callee {self, two contracts, precompiles 1-8 x 7 inputs, nonexistent, plain account} x 19 callee bodies x 19 inner bodies (depth 3) x caller balance / address collision, plus creation transactions; each under the in-tree chain configs 'aligned' (all forks at block 0) and 'app' (params.MainnetChainConfig as chain/app/evm uses it); distinct_nontrivial counts distinct reference outcome records (class, return data, logs, self-destructs, accounts/nonces/balances/storage, code length)"
+	cov["rule"] = "a case = one transaction (pre-state, callee or creation, call data) executed on the in-tree EVM and on upstream go-ethereum v1.8.27 (Constantinople without Petersburg) in one binary; cases: (1) every opcode byte x boundary operand tuples, executed as the called contract, behind a CALL and behind a STATICCALL, (2) every sequence of <= max_length tokens of a 47-token alphabet between a prologue pushing two words and an epilogue returning memory[0:64], top of stack, MSIZE and keccak(memory), x 3 call data x 2 pre-states (programs of the longest length: only the variants they can observe syntactically - call data variants iff a CALLDATA* token occurs, pre-state variants iff SLOAD/SSTORE/SELFDESTRUCT occurs), (3) caller {CALL,CALLCODE,DELEGATECALL,STATICCALL,CREATE,CREATE2} x value {0,1} x callee {self, two contracts, precompiles 1-8 x 7 inputs, nonexistent, plain account} x 19 callee bodies x 19 inner bodies (depth 3) x caller balance / address collision, plus creation transactions; each under the in-tree chain configs 'aligned' (all forks at block 0) and 'app' (params.MainnetChainConfig as chain/app/evm uses it); distinct_nontrivial counts distinct reference outcome records (class, return data, logs, self-destructs, accounts/nonces/balances/storage, code length)"
 	cov["samples"] = d.samples.List()
 	run.Notes = append(run.Notes, fmt.Sprintf("wall: family1 %.1fs family3 %.1fs family2 %.1fs family2(app) %.1fs", s1["wall_s"], s3["wall_s"], s2["wall_s"], s2b["wall_s"]))
 	pprof.StopCPUProfile()
